@@ -5,3 +5,5 @@ import Ymq.Props.C09
 #print axioms Ymq.C09.inv_mod_spec
 #print axioms Ymq.C09.reduce64_inv
 #print axioms Ymq.C09.gcd_terminates
+#print axioms Ymq.C09.mulword_no_panic
+#print axioms Ymq.C09.no_panic_partial
